@@ -11,7 +11,7 @@ python3 - "$1" "$SHA" "$3" <<'PY'
 import json,sys
 p='/verif/known_findings.json'
 d=json.load(open(p))
-d['findings'].append({"property":sys.argv[1],"kind":"fixed","commit":sys.argv[2],"what":sys.argv[3]})
+d['findings'].append({"property":sys.argv[1],"kind":"fixed","commit":sys.argv[2],"what":sys.argv[3],"line":"fixed: property=%s %s %s"%(sys.argv[1],sys.argv[2],sys.argv[3])})
 json.dump(d,open(p,'w'),indent=1)
 PY
 echo "committed $SHA"
